@@ -47,12 +47,13 @@ class TipperSurvey(FEMSurvey, AirborneEMSurvey):
         base_stations: TipperBaseStations | None = None,
         **kwargs,
     ):
-        self._base_stations = base_stations
-
         super().__init__(
             object_type,
             **kwargs,
         )
+
+        if base_stations is not None:
+            self.base_stations = base_stations
 
     @property
     def base_stations(self) -> TipperBaseStations | None:
